@@ -316,6 +316,13 @@ def h03e(c, K=3):
     c.cover("recorded")
 
 
+def h03f(c):
+    """a request refused by a control while the order's own placement is still in flight (C02 world): the order stays pending - no transition at all"""
+    from .c02 import h02a
+    from .c06 import _Only
+    h02a(_Only(c, ("refused.status-unchanged", "refused.status_log-unchanged", "no-exception")), mode="sim")
+
+
 from .c04 import h04b as _h04b  # noqa: E402  (the loop-level history harness, audited here for transitions and finality)
 
 OUT = ["K > 3 interleavings as concrete histories (covered only through the arbitrary in-flight pre-state of H03b)",
@@ -324,6 +331,7 @@ HARNESSES = [
     Harness("H03a", h03a, pattern="P2 inductive step", requires=["accepted", "rejected"], outside=OUT),
     Harness("H03b-live", h03b_live, pattern="P5 fault schedule as a variable", requires=["handled", "stream-first", "retries-exhausted", "replacement"], outside=OUT),
     Harness("H03b-betdaq", h03b_betdaq, pattern="P5 fault schedule as a variable", requires=["handled", "poll-in-flight"], outside=OUT, selfcheck=False),
+    Harness("H03f", h03f, pattern="P2 inductive step", requires=["refused", "second-request-while-in-flight"], outside=OUT, selfcheck=False),
     Harness("H03d", h03d, quick=dict(N=3), thorough=dict(N=4), pattern="P3 bounded history", requires=["batched", "explicit-execute"], outside=OUT, selfcheck=False),
     Harness("H03e", h03e, quick=dict(K=3), thorough=dict(K=4), pattern="P3/P5 schedule as a variable", requires=["run", "recorded", "replaced-bet"], outside=OUT,
             max_paths=(400000, 5000000), wall_s=(300, 3000), selfcheck=False),
